@@ -302,7 +302,7 @@ fn patch_detail(src: &[u8], p: &P) -> &'static str {
             let r = p.repl.trim_start_matches("not ");
             let fname: String = r.chars().take_while(|c| c.is_alphanumeric() || *c == '_').collect();
             let is_call = !fname.is_empty() && r[fname.len()..].starts_with('(');
-            let unbalanced = replaced.matches('(').count() != replaced.matches(')').count();
+            let unbalanced = replaced.matches('(').count() != replaced.matches(')').count() || p.repl.matches('(').count() != p.repl.matches(')').count();
             if (p.start > 0 && src[p.start - 1] == b'.') || (is_call && replaced.contains(&format!(".{}(", fname))) { "function-call-operand-span-excludes-module-prefix" }
             else if unbalanced { "parenthesised-operand-span-covers-one-parenthesis" } else { "other" }
         }
@@ -393,7 +393,8 @@ fn include_cases(rng: &mut Rng, index: usize, root: &Path, yr: Option<&str>, sta
         FileObs { path: cp.clone(), text: common.src.clone().into_bytes(), patches: vec![], fixed: None, yr_after: None }];
     let mut class = String::from("none");
     for p in &c.patches {
-        match files.iter_mut().find(|f| f.path == p.origin) {
+        // origins are compared by file name (the compiler may report a normalised path)
+        match files.iter_mut().find(|f| Path::new(&f.path).file_name() == Path::new(&p.origin).file_name()) {
             Some(f) => f.patches.push(p.clone()),
             None => { class = format!("include:patch-origin-is-no-file-of-the-compilation:{}", p.code); }
         }
